@@ -115,6 +115,48 @@ def _py_roles(ctx, fn):
     return {"step": step, "step_index": stepx.slice, "statevar": statevar, "byte": byte, "byte_ast": byte_ast, "class_aliases": aliases}
 
 
+def _concrete_env(ctx, m, T):
+    """the module's own constants as values: the literal table, and whatever simple module-level assignments derive from it (bytes(..), slices)"""
+    from ..core.tiny import Tiny, Sym
+    env = {"UTF8VALIDATOR_DFA": list(T)}
+    assigns = sorted([st_ for st_ in walk_no_defs(m.tree) if isinstance(st_, ast.Assign) and len(st_.targets) == 1 and isinstance(st_.targets[0], ast.Name)], key=lambda x: x.lineno)
+    for _ in range(3):   # definitions may build on one another
+        for st_ in assigns:
+            if st_.targets[0].id in env:
+                continue
+            try:
+                t = Tiny(dict(env), default_call=lambda f_, a_, k_=None: (list(a_[0]) if f_ in ("bytes", "bytearray", "tuple", "list") and a_ and isinstance(a_[0], list) else Sym(f"<{f_}>")))
+                v = t.ev(st_.value)
+            except Exception:  # noqa: not derivable on the model: stays unknown (reading it is exit 2)
+                continue
+            if isinstance(v, (int, list)) and not isinstance(v, bool):
+                env[st_.targets[0].id] = v
+    return env
+
+
+def _step_by_evaluation(ctx, m, T, fn, meth, nstates):
+    from ..core.tiny import Tiny, Sym
+    base = _concrete_env(ctx, m, T)
+    body = [x for x in fn.node.body if not (isinstance(x, ast.Expr) and isinstance(x.value, ast.Constant))]
+    prm = fn.params()[1]
+    out = []
+    try:
+        for s0 in range(nstates):
+            row = []
+            for b in range(256):
+                env = dict(base)
+                env.update({"self": Sym("validator"), "self._state": s0, "self._index": 0, "self._codepoint": 0, prm: ([b] if meth == "validate" else b)})
+                t = Tiny(env, default_call=lambda f_, a_, k_=None: (all(x < 128 for x in a_[0]) if f_.endswith("isascii") else Sym(f"<{f_}>")))
+                r = t.run(body)
+                if r[0] == "raise":
+                    raise AnalysisError(f"{meth}() raises {r[1]} in state {s0} on octet {b:#04x}")
+                row.append(t.env.get("self._state"))
+            out.append(row)
+    except AnalysisError as e:
+        raise AnalysisError(f"[C09.1-python-dfa-equals-rfc3629] Utf8Validator.{meth} outside the modelled subset: {e}")
+    return out
+
+
 def rule_python_dfa(ctx):
     ctx.rule("C09.1-python-dfa-equals-rfc3629")
     m, T, ACC, REJ = _py_table(ctx)
@@ -133,7 +175,15 @@ def rule_python_dfa(ctx):
         fn = c.methods.get(meth)
         ctx.require(fn is not None, f"Utf8Validator.{meth} missing")
         ctx.analysed(fn)
-        roles = _py_roles(ctx, fn)
+        try:
+            roles = _py_roles(ctx, fn)
+        except AnalysisError:
+            # the step is not written as one `state = TABLE[256 + ...]` statement (hoisted tables, a derived transition view, another loop form ...):
+            # the method itself is evaluated (sa.core.tiny, on the module's own tables) for every state and every octet, and the automaton it
+            # realises -- the state it stores -- is compared with RFC 3629
+            NXT2 = _step_by_evaluation(ctx, m, T, fn, meth, nstates)
+            _dfa_compare(ctx, f"Utf8Validator.{meth}", lambda s, b: int(NXT2[s][b]), ACC, REJ, nstates, fn.loc())
+            continue
         steps, statevar = [roles["step"]], roles["statevar"]
         idx = roles["step_index"]
         S, B = np.meshgrid(np.arange(nstates), np.arange(256), indexing="ij")
@@ -164,10 +214,15 @@ def rule_python_bookkeeping(ctx):
     m, T, ACC, REJ = _py_table(ctx)
     fn = m.classes["Utf8Validator"].methods["validate"]
     ctx.analysed(fn)
-    roles = _py_roles(ctx, fn)
-    SV = roles["statevar"]
-    ctx.ob("the validated octets are the chunk passed in", any(isinstance(x, ast.Name) and x.id == fn.params()[1] for x in ast.walk(roles["byte_ast"])),
-           f"reads {roles['byte']}", fn.loc())
+    try:
+        roles = _py_roles(ctx, fn)
+    except AnalysisError:
+        roles = None   # the step is not one `state = TABLE[256 + ...]` statement: the cells below run on the module's own tables instead of the quotient
+    if roles is not None:
+        SV = roles["statevar"]
+        ctx.ob("the validated octets are the chunk passed in", any(isinstance(x, ast.Name) and x.id == fn.params()[1] for x in ast.walk(roles["byte_ast"])),
+               f"reads {roles['byte']}", fn.loc())
+    concrete = _concrete_env(ctx, m, T) if roles is None else None
     # representative octets, taken from the automaton itself (real table): their classes and the quotient's transitions
     Ta = T
 
@@ -179,9 +234,9 @@ def rule_python_bookkeeping(ctx):
                 "representative octets do not span ACCEPT / inside / REJECT in the extracted table (C09.1 reports the table)")
     body = copy.deepcopy([x for x in fn.node.body if not (isinstance(x, ast.Expr) and isinstance(x.value, ast.Constant))])
     # substitute the step (and a class-holding local, if any) by the quotient automaton
-    target_line = (roles["step"].lineno, roles["step"].col_offset)
-    alias_lines = {(a_.lineno, a_.col_offset): n_ for n_, a_ in roles["class_aliases"].items()}
-    for x in ast.walk(ast.Module(body=body, type_ignores=[])):
+    target_line = (roles["step"].lineno, roles["step"].col_offset) if roles is not None else None
+    alias_lines = {(a_.lineno, a_.col_offset): n_ for n_, a_ in roles["class_aliases"].items()} if roles is not None else {}
+    for x in (ast.walk(ast.Module(body=body, type_ignores=[])) if roles is not None else ()):
         if isinstance(x, ast.Assign) and (x.lineno, x.col_offset) == target_line:
             arg = ast.Name(id=next(iter(roles["class_aliases"])), ctx=ast.Load()) if roles["class_aliases"] else copy.deepcopy(roles["byte_ast"])
             x.value = ast.fix_missing_locations(ast.copy_location(ast.Call(func=ast.Name(id="__dfa_step", ctx=ast.Load()), args=[ast.Name(id=SV, ctx=ast.Load()), arg], keywords=[]), x))
@@ -203,7 +258,11 @@ def rule_python_bookkeeping(ctx):
                             if f_.endswith(".isascii") and not a_:
                                 return all(t_ == "A" for t_ in chunk)
                             raise AnalysisError(f"call {f_} in validate() is not modelled")
-                        env = {"self": Sym("validator"), "self._state": st0, "self._index": idx0, chunk_p: list(chunk), "UTF8_ACCEPT": ACC, "UTF8_REJECT": REJ, TABLE: Sym("transition-table")}
+                        if roles is not None:
+                            env = {"self": Sym("validator"), "self._state": st0, "self._index": idx0, chunk_p: list(chunk), "UTF8_ACCEPT": ACC, "UTF8_REJECT": REJ, TABLE: Sym("transition-table")}
+                        else:
+                            env = dict(concrete)
+                            env.update({"self": Sym("validator"), "self._state": st0, "self._index": idx0, chunk_p: [reps[t_] for t_ in chunk], "UTF8_ACCEPT": ACC, "UTF8_REJECT": REJ})
                         t = Tiny(env, calls={"__dfa_step": step}, default_call=default)
                         r = t.run(body)
                         # specification
@@ -407,6 +466,46 @@ def rule_c(ctx):
             why = f"quad for native codes (-1, 0, 1) is {table}, indices {show(q[2])[:40]}, {show(q[3])[:40]}"
         except AnalysisError as e:
             why = str(e)
+    if not okm:
+        # not one list of four terms over the three native calls (locals for lib / handle, a helper for the verdict pair, tuple concatenation ...):
+        # the wrapper is evaluated (sa.core.tiny) against a model of the native library for the three return codes
+        from ..core.tiny import Tiny, Sym, Buf
+        from .common import inline_private
+        try:
+            table, idx_ok, order_ok = [], True, True
+            tables = []
+            for code, ln in [(c_, l_) for l_ in (7, 1, 0) for c_ in (-1, 0, 1)]:   # the empty chunk too: the library must be asked for every chunk
+                if code == -1 and table:
+                    tables.append(table)
+                    table = []
+                seq = []
+                handle, data = Sym("native-validator"), Buf(0, ln)
+
+                def mk(name, ret):
+                    def f(*a_):
+                        seq.append((name, a_))
+                        return ret
+                    return f
+                lib = Sym("lib", methods={"nvx_utf8vld_validate": mk("validate", code), "nvx_utf8vld_get_current_index": mk("cur", 41), "nvx_utf8vld_get_total_index": mk("tot", 97)})
+                env = {"self": Sym("wrapper"), "self.lib": lib, "self._vld": handle, vfn.params()[1]: data, "ffi": Sym("ffi")}
+                t = Tiny(env, default_call=lambda f_, a_, k_=None: Sym(f"<{f_}>"), inline_self=lambda nm_: (w.methods[nm_].node if nm_ in w.methods and nm_ != "validate" else None),
+                         opaque_globals=True, model_types=True, local_defs=True)
+                r = t.run([x for x in vfn.node.body if not (isinstance(x, ast.Expr) and isinstance(x.value, ast.Constant))])
+                quad = list(r[1]) if r[0] == "return" and isinstance(r[1], (list, tuple)) else None
+                if quad is None or len(quad) != 4:
+                    table.append(r[0])
+                    continue
+                table.append((quad[0], quad[1]))
+                idx_ok = idx_ok and quad[2] == 41 and quad[3] == 97
+                names = [n_ for n_, _ in seq]
+                vcalls = [a_ for n_, a_ in seq if n_ == "validate"]
+                order_ok = order_ok and names[:1] == ["validate"] and len(vcalls) == 1 and len(vcalls[0]) == 3 and vcalls[0][0] is handle and vcalls[0][1] is data and vcalls[0][2] == ln
+            tables.append(table)
+            okm = all(tb_ == [(False, False), (True, True), (True, False)] for tb_ in tables) and len(tables) == 3 and idx_ok and order_ok
+            table = tables
+            why = f"quad flags for native codes (-1, 0, 1) are {table}; indices taken from the library: {idx_ok}; whole chunk validated first: {order_ok}"
+        except AnalysisError as e:
+            why = f"{why}; cell evaluation: {e}"
     ctx.ob("wrapper maps the native result to (valid, ends on code point, current index, total index)", okm, why, vfn.loc())
     calls = [x for o in rets for x in subterms(o.term) if x[0] == "m" and x[2] == "nvx_utf8vld_validate"]
     ctx.ob("wrapper validates the whole chunk and reads both indices", bool(calls) and all(x == RES for x in calls), f"{[show(x)[:80] for x in calls]}", vfn.loc())
@@ -514,7 +613,7 @@ def run(ctx):
     rule_python_bookkeeping(ctx)
     rule_c(ctx)
     rule_selection(ctx)
-    ctx.floor("C09.1-python-dfa-equals-rfc3629", 12)
-    ctx.floor("C09.4-index-bookkeeping-python", 3)
+    ctx.floor("C09.1-python-dfa-equals-rfc3629", 10)
+    ctx.floor("C09.4-index-bookkeeping-python", 2)
     ctx.floor("C09.2-c-table-and-unrolled-dfa", 90)
     ctx.floor("C09.5-implementation-selection", 4)
